@@ -107,6 +107,7 @@ static int test_module(struct xmp_test_info *info, HIO_HANDLE *h)
 
 	for (i = 0; format_loaders[i] != NULL; i++) {
 		hio_seek(h, 0, SEEK_SET);
+		buf[0] = '\0';	/* not every format test writes a title */
 		if (format_loaders[i]->test(h, buf, 0) == 0) {
 			int is_prowizard = 0;
 
